@@ -10,7 +10,7 @@
 //!
 //! corr: (1) the `t == start || t == end` guard and the float midpoint `0.5 * (start + end)` of
 //!       `fit_to_bezpath_rec`: the real `fit_to_bezpath` is run on a source that is never fitted on
-//!       the ranges that contain one of k marked parameters strictly inside; the number of
+//!       the ranges that contain one of k marked parameters; the number of
 //!       `fit_to_bezpath_rec` calls and the emitted straight cubics must equal the binary64 run of
 //!       `Totality.bisect` exactly; (2) `CubicBez::regularize` (bit-exact in its nudging branches,
 //!       1e-9 in the cusp branch that calls hypot).
@@ -121,7 +121,9 @@ fn judge<R>(what: &str, fam: &str, run: Run<R>, budget: u64, stat_ix: usize, inp
         Run::Skipped => Ok(None),
         Run::Hang => Err((format!("{}:hang:{}", what, fam), format!("no result within {} s on {}", TIME_LIMIT_S, input()))),
         Run::Panic(m) => {
-            let kind = if m.contains("Option::unwrap") {
+            let kind = if m.starts_with("C14: more than") {
+                "output-size"
+            } else if m.contains("Option::unwrap") {
                 "panic-unwrap"
             } else if m.contains("shift left with overflow") {
                 "panic-shift-overflow"
@@ -1173,10 +1175,20 @@ fn svg_astronomical_arc(s: &str) -> bool {
     maxrun > 9 || maxexp >= 9
 }
 fn check_svg(s: &str, assert_finite: bool) -> Option<(String, String)> {
+    check_svg_run(s, assert_finite, false)
+}
+fn check_svg_run(s: &str, assert_finite: bool, on_thread: bool) -> Option<(String, String)> {
     if svg_astronomical_arc(s) {
         return None;
     }
-    match direct(|| BezPath::from_svg(s)) {
+    let run = if on_thread {
+        let owned = s.to_string();
+        guarded(move || BezPath::from_svg(&owned))
+    } else {
+        direct(|| BezPath::from_svg(s))
+    };
+    match run {
+        Run::Hang => fail("svg:hang".into(), format!("BezPath::from_svg({:?}) did not return within {} s", s, TIME_LIMIT_S)),
         Run::Panic(m) => {
             let class = if m.contains("sum_of_sq") { "svg:panic:arc-degenerate" } else { "svg:panic" };
             fail(class.into(), format!("'{}' on BezPath::from_svg({:?})", m, s))
@@ -1204,7 +1216,7 @@ fn law_svg_bytes(a: &[f64]) -> Option<(String, String)> {
     // numbers like 1e999 or sums of 1e308 denote no finite f64: finiteness is asserted only without exponents
     // (at most 64 digits: every literal is below 1e64 and there are at most 32 of them)
     let no_exp = !s.contains('e') && !s.contains('E');
-    check_svg(&s, no_exp)
+    check_svg_run(&s, no_exp, true)
 }
 /// grammatical paths with coordinates of magnitude <= 1e6: degenerate arcs, smooth commands, repeated points
 fn g_svg_valid(r: &mut Rng) -> Vec<f64> {
@@ -1245,7 +1257,7 @@ fn g_svg_valid(r: &mut Rng) -> Vec<f64> {
 }
 fn law_svg_valid(a: &[f64]) -> Option<(String, String)> {
     // coordinates stay below 6 * 2e6: every number must be finite
-    check_svg(&bytes_of(a), true)
+    check_svg_run(&bytes_of(a), true, true)
 }
 
 fn laws() -> Vec<Law> {
@@ -1269,8 +1281,9 @@ fn laws() -> Vec<Law> {
 // correspondence
 // =====================================================================================
 
-/// A source that `fit_to_bezpath_rec` can never fit on a range that has one of the marked parameters
-/// strictly inside: the end points of every range are 1000 apart in y (so `try_fit_line` is not tried), and
+/// A source that `fit_to_bezpath_rec` can never fit on a range that contains one of the marked parameters
+/// (end points included: the recursion runs down to adjacent floats on both sides of a mark and ends by
+/// the guard `t == start || t == end` alone): the end points of every range are 1000 apart in y (so `try_fit_line` is not tried), and
 /// `break_cusp` answers the float midpoint of such a range, the range start (a leaf by the guard
 /// `t == start`) of any other.
 struct Marked {
@@ -1289,7 +1302,7 @@ impl ParamCurveFit for Marked {
         if kurbo::verif::work() > self.limit {
             panic!("C14: fit_to_bezpath_rec called more than {} times", self.limit);
         }
-        if self.marks.iter().any(|m| range.start < *m && *m < range.end) {
+        if self.marks.iter().any(|m| range.start <= *m && *m <= range.end) {
             Some(0.5 * (range.start + range.end))
         } else {
             Some(range.start)
@@ -1402,7 +1415,29 @@ fn corr_regularize(r: &mut Rng, thorough: bool, o: &mut Out) {
     }
 }
 
+/// A loop that never ends AND allocates (a parser that stops consuming input, a dasher that stops advancing) would
+/// take the machine down long before any time limit: cap the address space of this process at 12 GB.  An allocation
+/// failure aborts the harness, which the driver reports as a failed run of this property.
+fn limit_memory() {
+    #[repr(C)]
+    struct Rlimit {
+        cur: u64,
+        max: u64,
+    }
+    extern "C" {
+        fn setrlimit(resource: i32, rlim: *const Rlimit) -> i32;
+    }
+    const RLIMIT_AS: i32 = 9; // Linux
+    let lim = Rlimit { cur: 12 << 30, max: 12 << 30 };
+    if cfg!(target_os = "linux") {
+        unsafe {
+            setrlimit(RLIMIT_AS, &lim);
+        }
+    }
+}
+
 fn corr(r: &mut Rng, thorough: bool, o: &mut Out) {
+    limit_memory();
     corr_bisect(r, thorough, o);
     corr_regularize(r, thorough, o);
 }
@@ -1412,22 +1447,48 @@ fn corr(r: &mut Rng, thorough: bool, o: &mut Out) {
 // =====================================================================================
 
 fn svg_exhaustive(o: &mut Out, alphabet: &[u8], maxlen: usize) {
-    let k = alphabet.len();
+    let k = alphabet.len() as u64;
     let mut evals = 0u64;
     for len in 0..=maxlen {
-        let total = (k as u64).pow(len as u32);
-        let mut buf = vec![0u8; len];
-        for code in 0..total {
-            let mut c = code;
-            for b in buf.iter_mut() {
-                *b = alphabet[(c % k as u64) as usize];
-                c /= k as u64;
+        let total = k.pow(len as u32);
+        // batches of 4096 strings per worker thread: a parser that stops consuming input is reported as a hang
+        // of the batch (with its first and last string) instead of stalling the whole run
+        let mut lo = 0u64;
+        while lo < total {
+            let hi = (lo + 4096).min(total);
+            let alpha = alphabet.to_vec();
+            let nth = move |code: u64, alpha: &[u8]| -> String {
+                let mut c = code;
+                let mut b = Vec::with_capacity(len);
+                for _ in 0..len {
+                    b.push(alpha[(c % alpha.len() as u64) as usize]);
+                    c /= alpha.len() as u64;
+                }
+                String::from_utf8(b).unwrap()
+            };
+            let (a2, nth2) = (alpha.clone(), nth.clone());
+            let run = guarded(move || {
+                let mut found = Vec::new();
+                for code in lo..hi {
+                    let s = nth2(code, &a2);
+                    if let Some((class, desc)) = check_svg(&s, !s.contains('e')) {
+                        found.push((class, desc, s));
+                    }
+                }
+                found
+            });
+            match run {
+                Run::Done(found, _) => {
+                    for (class, desc, s) in found {
+                        o.violation(&class, desc, format!("{{\"svg\":{}}}", crate::util::json_str(&s)));
+                    }
+                }
+                Run::Panic(m) => o.violation("svg:panic", format!("'{}' in the sweep {:?}..{:?}", m, nth(lo, &alpha), nth(hi - 1, &alpha)), "{}".into()),
+                Run::Hang => o.violation("svg:hang", format!("the sweep over the strings {:?}..{:?} (length {}, alphabet {:?}) did not return within {} s", nth(lo, &alpha), nth(hi - 1, &alpha), len, String::from_utf8_lossy(&alpha), TIME_LIMIT_S), "{}".into()),
+                Run::Skipped => {}
             }
-            let s = std::str::from_utf8(&buf).unwrap();
-            evals += 1;
-            if let Some((class, desc)) = check_svg(s, !s.contains('e')) {
-                o.violation(&class, desc, format!("{{\"svg\":{}}}", crate::util::json_str(s)));
-            }
+            evals += hi - lo;
+            lo = hi;
         }
     }
     for _ in 0..evals {
@@ -1545,6 +1606,25 @@ fn extra(_r: &mut Rng, thorough: bool, o: &mut Out) {
     svg_exhaustive(o, b"MLZa01.-e ,", if thorough { 5 } else { 4 });
     svg_exhaustive(o, b"mzhqtsc1 -", if thorough { 5 } else { 4 });
     replay_witnesses(o);
+    // arclen_rec at an accuracy no quadrature estimate can meet: the full tree down to the depth limit,
+    // 2^21 - 1 calls (C14_arclen_rec_leaves) and not one more
+    {
+        let c = CubicBez::new((0.0, 0.0), (1.0, 2.0), (3.0, 2.0), (4.0, 0.0));
+        o.oracle_eval("arclen_depth_limit");
+        match guarded(move || c.arclen(1e-300)) {
+            Run::Done(l, w) => {
+                if counter_clean() && w > 2097151 {
+                    o.violation("arclen:work-budget:depth-limit", format!("{:?}.arclen(1e-300): {} calls of arclen_rec (proved bound 2^21 - 1 = 2097151)", c, w), "{}".into());
+                }
+                if !l.is_finite() {
+                    o.violation("arclen:nonfinite:depth-limit", format!("{:?}.arclen(1e-300) = {:?}", c, l), "{}".into());
+                }
+            }
+            Run::Hang => o.violation("arclen:hang:depth-limit", format!("{:?}.arclen(1e-300) did not return within {} s (2^21 - 1 calls take 0.3 s)", c, TIME_LIMIT_S), "{}".into()),
+            Run::Panic(m) => o.violation("arclen:panic:depth-limit", format!("'{}' on {:?}.arclen(1e-300)", m, c), "{}".into()),
+            Run::Skipped => {}
+        }
+    }
     if std::env::var("C14_STATS").is_ok() {
         for (i, s) in STATS.iter().enumerate() {
             eprintln!("C14 stat {:>16}: max observed/budget = {:.6}", STAT_NAMES[i], s.load(Ordering::Relaxed) as f64 / 1e6);
